@@ -5,6 +5,7 @@ import SwcVerif.Props.C16PairLoc
 import SwcVerif.Props.C16Asm
 import SwcVerif.Props.C16AsmGen
 import SwcVerif.Props.C16Gen
+import SwcVerif.Props.C16Tree
 #print axioms C16Asm.machine_eq_sub
 #print axioms C16Asm.assemble_eq
 #print axioms C16Asm.assemble_sorted
@@ -46,6 +47,11 @@ import SwcVerif.Props.C16Gen
 #print axioms C16.generated_iso_step_le
 #print axioms C16.generated_smooth_endpoints_count
 #print axioms C16.generated_lin_last
+#print axioms RefineResamTree.for2_loop
+#print axioms RefineResamTree.for3_loop
+#print axioms RefineResamTree.resam_tree_eq
+#print axioms C16Tree.generated_resample_tree_eq_compose
+#print axioms C16Tree.generated_resample_tree_wf_partial
 #print axioms C16.pairArgmin_spec
 #print axioms C16.pair_step_inv
 #print axioms C16.pair_exact
